@@ -14,6 +14,7 @@ import (
 	"net/http/httptest"
 	"os"
 	"path/filepath"
+	"runtime"
 	"runtime/debug"
 	"strings"
 	"sync"
@@ -381,4 +382,28 @@ func KeyspaceOf(key string) string {
 		return key[:i]
 	}
 	return key
+}
+
+// AllStacks returns the full goroutine dump (buffer grown as needed).
+func AllStacks() string {
+	n := 1 << 20
+	for {
+		buf := make([]byte, n)
+		m := runtime.Stack(buf, true)
+		if m < n {
+			return string(buf[:m])
+		}
+		n *= 4
+	}
+}
+
+// GoroutinesWith returns the dump blocks of goroutines whose stack mentions substr.
+func GoroutinesWith(substr string) []string {
+	var out []string
+	for _, g := range strings.Split(AllStacks(), "\n\n") {
+		if strings.Contains(g, substr) {
+			out = append(out, g)
+		}
+	}
+	return out
 }
